@@ -10,12 +10,13 @@
      stop_fixed  w = (-w+1) or None         after notes/C13.fix-1.diff         `[..., :(-w+1) or None]`
    Theorems without suffix are about stop_fixed and hold for every window >= 1; `_partial` ones are about
    the pinned code and hold for windows >= 2; `_refuted` ones show the pinned code failing at window 1. *)
-From Coq Require Import ZArith List Bool.
+From Coq Require Import ZArith QArith List Bool.
 From BNP Require Import Base.Prims.
 From BNP Require Import Model.C13.
 From BNP Require Import Proofs.C13.
 From BNP Require Import Corr.C13.
 From BNP Require Import Proofs.C13_corr.
+From BNP Require Import Proofs.C13_q.
 From BNP Require Import Gen.C13.
 From BNP Require Import Bridge.C13.
 Import ListNotations.
@@ -155,16 +156,55 @@ Theorem C13_count_kmers_partial :
 Proof. exact count_kmers_pinned. Qed.
 Print Assumptions C13_count_kmers_partial.
 
-(* The link between the two verdicts the check evaluates on every generated case (Corr/C13.v): for every
-   case inside the property's domain (distinct alphabet letters, letters in range, 1 <= k <= w <= 31,
-   total letters >= w) whose window the current column slice handles (window_handled: w >= 2, for
-   minimizers k >= 2, always for encode/to_string), if the implementation's answer equals the model's
-   (model_ok) then it is the property's value (spec_ok) — for all seven observed operations, including
-   the labels of count_kmers.  `_partial` because window 1 is excluded while the model is the pinned code. *)
-Theorem C13_model_agrees_implies_property_partial :
-  forall c : case, in_domain c = true -> window_handled c -> model_ok c = true -> spec_ok c = true.
+(* The link between the two verdicts the check evaluates on every generated case (Corr/C13.v).
+   For the property's own input class — a ragged collection of sequences (k_kind = 0: freshly built array,
+   non-contiguous view, one sequence as a 1-d array) — inside the domain (distinct alphabet letters, letters in
+   range, 1 <= k <= w <= 31, total letters >= w): if the implementation's answer equals the model's (model_ok)
+   then it is the property's value (spec_ok).  EVERY window >= 1 (the repaired slice is in /repo), all eight
+   observed operations: k-mers incl. their rendering, minimizers, string match, motif scores (exact, and the
+   real-valued tolerance test), both counts incl. labels, encode/to_string. *)
+Theorem C13_model_agrees_implies_property :
+  forall c : case, in_domain c = true -> k_kind c = 0 -> model_ok c = true -> spec_ok c = true.
 Proof. exact model_ok_implies_spec_ok. Qed.
-Print Assumptions C13_model_agrees_implies_property_partial.
+Print Assumptions C13_model_agrees_implies_property.
+
+(* Equal-length sequences handed over as a dense 2-d array: the same link on every route that keeps the row
+   structure (route_handled: everything except get_motif_scores on a 2-d array and get_kmers on an un-encoded
+   2-d array, which at /repo HEAD treat the whole array as one row). *)
+Theorem C13_model_agrees_implies_property_dense_partial :
+  forall c : case, in_domain c = true -> route_handled c -> model_ok c = true -> spec_ok c = true.
+Proof. exact model_ok_implies_spec_ok_routes. Qed.
+Print Assumptions C13_model_agrees_implies_property_dense_partial.
+
+(* ... and those two routes really break row-locality (3 x 4 array ACGT/TTGA/CCCA, width-2 motif, k = 2): windows
+   T|T, A|C span the row borders; with the rows kept (notes/C13.fix-2.diff, C13.fix-3.diff) the value is the spec's *)
+Theorem C13_dense_routes_refuted :
+  let rows := [[0;1;2;3]; [3;3;2;0]; [1;1;1;0]] in
+  let cols := [[1;10;100;1000]; [2;20;200;2000]] in
+  get_motif_scores_with stop_fixed cols (dense_rows_pinned rows) = [[21; 210; 2100; 3000; 3000; 1200; 102; 21; 30; 30; 12]]
+  /\ get_motif_scores_with stop_fixed cols (dense_rows_pinned rows) <> spec_motif cols rows
+  /\ get_kmers_with stop_fixed 4 2 (dense_rows_pinned rows) = [[4; 9; 14; 15; 15; 11; 2; 4; 5; 5; 1]]
+  /\ get_kmers_with stop_fixed 4 2 (dense_rows_pinned rows) <> spec_kmers 4 2 rows
+  /\ get_motif_scores_with stop_fixed cols (dense_rows_fixed rows) = spec_motif cols rows
+  /\ get_kmers_with stop_fixed 4 2 (dense_rows_fixed rows) = spec_kmers 4 2 rows.
+Proof. exact dense_routes_refuted. Qed.
+Print Assumptions C13_dense_routes_refuted.
+
+(* Motif scores with a real-valued matrix, read over EXACT rationals: the shifted-accumulation loop, re-wrap and trim
+   give, per row, for every window inside the row, the sum over positions of column_j[letter_j] — as rationals
+   (Leibniz-equal unreduced fractions), for every matrix, every width >= 1 and every ragged collection.  (Floats are
+   not covered by any theorem: their addition is not associative; see the tolerance test, op 7 of the correspondence.) *)
+Theorem C13_motif_scores_rational :
+  forall (cols : list (list Q)) (rows : list (list Z)), 1 <= len cols ->
+    gget_motif_scores_with 0%Q Qplus stop_fixed cols rows = per_row (gscore 0%Q Qplus cols) (length cols) rows.
+Proof. exact motif_row_local_Q. Qed.
+Print Assumptions C13_motif_scores_rational.
+
+(* the integer-valued functions the correspondence evaluates are the Z instance of that same generic loop *)
+Theorem C13_motif_scores_integer_instance :
+  forall stopf cols rows, gget_motif_scores_with 0 Z.add stopf cols rows = get_motif_scores_with stopf cols rows.
+Proof. exact gget_motif_scores_Z. Qed.
+Print Assumptions C13_motif_scores_integer_instance.
 
 (* Source tie: the arithmetic regenerated from /repo on this run (Gen/C13.v, written by translate/run.py through
    translate/gen_c13.py) is the arithmetic the theorems above are about:
@@ -224,4 +264,18 @@ Example C13_nonvacuous_others :
      = [[21; 2010; 1200; 102]; []; []; [12; 21]]
   /\ count_kmers_rows_with stop_fixed 4 1 rows = [[2;1;1;1]; [1;0;0;0]; [0;0;0;0]; [1;2;0;0]]
   /\ to_string [65;67;71;84] 4 3 (encode_kmer 4 3 [0;1;3]) = [65;67;84].
+Proof. vm_compute. repeat split; reflexivity. Qed.
+
+Example C13_nonvacuous_rational :
+  let cols := [[1#3; 1#2; 0; 2#1]; [1#7; 0; 5#2; 1#3]]%Q in
+  let rows := [[0;1;3;2;0]; [0]; []; [1;0]] in
+  gget_motif_scores_with 0%Q Qplus stop_fixed cols rows = per_row (gscore 0%Q Qplus cols) 2 rows
+  /\ length (concat (gget_motif_scores_with 0%Q Qplus stop_fixed cols rows)) = 5%nat.
+Proof. vm_compute. split; reflexivity. Qed.
+
+Example C13_nonvacuous_link :
+  let c := {| k_op := 0; k_kind := 0; k_alpha := [65; 67; 71; 84]; k_rows := [[0;1;3]; []; [2]]; k_w := 1; k_k := 1;
+              k_pat := []; k_cols := []; k_err := false; k_out := [[0;1;3]; []; [2]];
+              k_labels := [[65]; [67]; [84]; [71]] |} in
+  in_domain c = true /\ k_kind c = 0 /\ model_ok c = true /\ spec_ok c = true.
 Proof. vm_compute. repeat split; reflexivity. Qed.
